@@ -76,8 +76,8 @@ func ebpReadObs(data []byte) Val {
 	if err != nil {
 		return VErr(errCode(err))
 	}
-	o := ebpObs(e)
-	d := e.Data()
+	o := twice("EBP getters", func() Val { return ebpObs(e) })
+	d := keep("Data() of the decoded EBP", e.Data())
 	dfl := ebpU(e, "DataFieldLength")
 	return VOk(VL(o, VB(d), dfl, VBool(bytes.Equal(snap, data))))
 }
@@ -208,9 +208,9 @@ func init() {
 				return VBad()
 			}
 		}
-		before := ebpObs(e)
-		d := e.Data()
-		after := ebpObs(e)
+		before := twice("EBP getters", func() Val { return ebpObs(e) })
+		d := keep("Data()", e.Data())
+		after := twice("EBP getters", func() Val { return ebpObs(e) })
 		// decode a copy with cap == len (DESIGN section 3); a panic of the decoder is an observation of
 		// that step only
 		cp := make([]byte, len(d))
